@@ -9,13 +9,21 @@ CFG = {'streams': [{'name': 'C20',
  'rule': 'generated programs with exactly one injected runtime fault (type error, unknown function, conflicting attribute, undefined edge, bad '
          'arity, eager faults in if/scan/for sources) at a random statement position and depth, plus naturally failing generated programs; both '
          'modes; non-trivial = fault at depth >= 1 or a two-statement (conflict) context',
- 'explanation': "Theorems: strict: the error of a block execution is the bare cancellation or sits in ONE statement context carrying the stanza's "
-                'location and the matched node (cause possibly inside Context::Other); the error of a run comes from one (stanza, match) block; '
-                'lazy: one context, or two for a conflict; the innermost context wins.',
- 'partial': ['that the cited STATEMENT location is the innermost failing statement (strict) / the failing or an enclosing statement (lazy) is '
-             'checked by the correspondence stream against the model, not proved as a theorem',
-             'lazy: stanza/node of contexts stored with thunks and deferred statements are compared by the stream, the theorem covers the shape of '
-             'the chain'],
+ 'explanation': "Theorems. STRICT: the error of a run is the bare cancellation or comes from one (stanza, match) block and sits in ONE statement "
+                "context carrying the stanza's location, the block's full-match node and the location of a statement s' of that stanza (any "
+                "nesting depth) that failed directly: the cause (possibly inside Context::Other for scan arms) is the error returned by a run of "
+                "s' itself which carries no statement context, while the error of a nested block is never without statement context — so the "
+                "cited statement is the innermost failing one (strict_error_stmt_loc, strict_file_error_stmt_loc, strict_nested_error_not_plain). "
+                "LAZY: an error of both phases is the bare cancellation or sits in one statement context, or two for a conflict (duplicate "
+                "attribute / scoped variable); the cause is unwrapped and EVERY context is a valid context of the run: stanza location and "
+                "first full-match node of an executed (stanza, match) pair and the location of a statement of that stanza at any depth (the "
+                "failing statement or one enclosing it); no non-cancellation error escapes without a statement context "
+                "(lazy_error_ctx_valid, lazy_run_error_ctx_valid; state invariant lazy_ctx_invariant). The innermost context wins.",
+ 'partial': ['lazy: WHICH statement of the stanza a context cites (the statement that created the failing thunk / deferred statement, or the '
+             "enclosing top-level statement for failures in if/for blocks during execution) is compared by the stream with the model's; the "
+             'theorem says it is a statement of the stanza of an executed (stanza, match) pair, with that pair\'s node',
+             'the KIND and source position displayed for the matched node, and the DSL/source excerpts of display_pretty, are checked by the '
+             'stream only (the model identifies syntax nodes by index)'],
  'assumptions': ['tree-sitter queries are an external: raw matches are recorded by calling QueryCursor::matches directly on the stanza queries and '
                  'on the merged file query',
                  'regex crate: modelled by Model/Regex.v on the generated sub-language (validated by stream C10rx); stdlib functions: Model/Stdlib.v '
